@@ -1289,7 +1289,8 @@ class BaseSQL(
 
             for num, column in enumerate(p_list[-2]):
                 ref = deepcopy(p_list[-1]["references"])
-                ref["column"] = ref["columns"][num]
+                # no referenced column list (the referenced table's key): no column
+                ref["column"] = ref["columns"][num] if num < len(ref["columns"]) else None
                 del ref["columns"]
                 ref["name"] = column
                 data["ref_columns"].append(ref)
